@@ -3,6 +3,7 @@ running line issues for real processors (default start_work / end_work =
 shutdown / restore), next to failures and scripted shutdowns."""
 from . import register
 from ..instrument import action_name
+from ..build import order_cost
 
 
 @register('maint')
@@ -28,6 +29,7 @@ class MaintLine:
         self.overtakes = 0
         self.dups = 0
         self.cost = 0
+        self.done = {}
 
     def on_event(self, env, head):
         if self.ref is None:
@@ -76,7 +78,7 @@ class MaintLine:
                     return
                 o.started_at = now
                 o.duration = (m.items[did].get('wo') or {}).get(tag, [0, 0, 0])[0]
-                self.cost += (m.items[did].get('wo') or {}).get(tag, [0, 0, 0])[2]
+                self.cost += order_cost(m.items[did], tag, self.done.get((did, tag), 0))
                 self.open[did] = o
                 self.started_now.append(o)
             else:
@@ -89,6 +91,7 @@ class MaintLine:
                                f'{now!r}')
                     return
                 ended.append(o)
+                self.done[(did, tag)] = self.done.get((did, tag), 0) + 1
                 self.completed += 1
                 ctx.count('orders_completed')
         for o in ended:
